@@ -124,7 +124,6 @@ func (e *Exec) opaqueMethod(fv *FuncV, args []Value, cc *ssa.CallCommon) Value {
 	}
 	if ov.Tag == "ctx-cancel" {
 		co := ov.Data.(*ctxObj)
-		e.schedPoint("cancel")
 		co.canc = true
 		if co.done != nil {
 			co.done.Closed = true
